@@ -340,6 +340,23 @@ class MemoryTimeline(MutableTimeline[Interval]):
                         )
                     ]
 
+                # Only an existing occurrence can be removed: one must start
+                # exactly there (an instance removed earlier no longer does)
+                if not any(
+                    occ.start == interval.start
+                    for occ in pattern.fetch(interval.start, interval.start + 1)
+                ):
+                    return [
+                        WriteResult(
+                            success=False,
+                            event=interval,
+                            error=ValueError(
+                                f"Recurring pattern {recurring_id} has no occurrence "
+                                f"starting at {interval.start}"
+                            ),
+                        )
+                    ]
+
                 # Add exclusion (frozenset reassignment, not in-place mutation)
                 pattern.exdates = pattern.exdates | {interval.start}
                 return [WriteResult(success=True, event=interval, error=None)]
